@@ -320,6 +320,7 @@ func New(p interface{}, opts ...Option) (Stub, error) {
 		idx:        os.Getenv(api.PluginIdxEnvVar),
 		socketPath: api.DefaultSocketPath,
 		dialer:     func(p string) (stdnet.Conn, error) { return stdnet.Dial("unix", p) },
+		cfgErrC:    make(chan error, 1),
 	}
 	stub.registrationTimeout.Store(int64(DefaultRegistrationTimeout))
 	stub.requestTimeout.Store(int64(DefaultRequestTimeout))
@@ -418,7 +419,10 @@ func (stub *stub) Start(ctx context.Context) (retErr error) {
 	}()
 
 	stub.srvErrC = make(chan error, 1)
-	stub.cfgErrC = make(chan error, 1)
+	select {
+	case <-stub.cfgErrC: // drop the unconsumed configuration result of an earlier, failed start
+	default:
+	}
 
 	go func(l stdnet.Listener, doneC chan struct{}, srvErrC chan error) {
 		srvErrC <- rpcs.Serve(ctx, l)
